@@ -33,5 +33,5 @@ For each refactoring k = 1..4 write into `{out}/<k>/`:
   * `meta.json`  — {{"kind": "harmless", "summary": "<what was refactored and why it is equivalent, 2-4 sentences>", "files": [...], "tests_result": "<tail line of pytest with the change>"}}
 Procedure per refactoring: edit → run the test suite (13 failed, 254 passed) → also write and run a quick differential script of your own
 that compares old vs new behaviour on a few dozen inputs incl. edge cases (you can keep a pristine copy of the package via
-`git stash`/`git worktree` semantics or by `git show HEAD:lasio/<file>`), → `git diff > patch.diff` → `git checkout -- .` → next.
+`git show HEAD:lasio/<file>` — never `git stash`, the stash is shared by all worktrees), → `git diff > patch.diff` → `git checkout -- .` → next.
 Leave the worktree clean when done. Finish with a short report listing the four refactorings.""")
